@@ -150,4 +150,9 @@ package op
 //@   ensures zero-otherwise: err != nil && !typeis(err, "IDTokenHintExpiredError") ==> iszero(claims)
 
 //@ loop op.intercept$1#1
-//@   invariant bounds: 0 - 1 <= i && i < len(interceptors)
+//@   invariant bounds: 0 - 1 <= i && i < len(*interceptors)
+
+// ---- C03 building blocks ----
+//@ func op.HTTPLoopbackOrLocalhost
+//@   modifies nothing
+//@   ensures parsed: result1 ==> result0 != nil
